@@ -316,9 +316,13 @@ func (x *Exec) builtin(e *ast.CallExpr, st *State, name string) Value {
 				x.oblige(st, "makelen", x.site("makelen", e), "", g, e.Pos())
 				st.add(g)
 			}
-			x.allocCheck(st, n, e)
 			if len(e.Args) > 2 {
-				x.expr(e.Args[2], st)
+				// make([]T, len, cap): the capacity is what is allocated
+				ct := x.info.TypeOf(e.Args[2])
+				cn := x.toIdx(x.exprT(e.Args[2], st, types.Typ[types.Int]), ct)
+				x.allocCheck(st, cn, e)
+			} else {
+				x.allocCheck(st, n, e)
 			}
 			l := x.layout(u.Elem())
 			comps := make([]*Term, len(l))
